@@ -55,6 +55,18 @@ pub fn gen(seed: u64, n: usize, out: &mut String) {
                     quot[t] = *r.pick(&[u32::MAX, u32::MAX - 1, 1 << 31, (1 << 30) + 7, 1 << 28]);
                 }
             }
+            // 1 in 10: a warm-up slot that is not empty (the constructor must refuse it; if it does not, the count and the bits
+            // written disagree): quotient 1, quotients whose bits leave a u32 when shifted by the first parameter, a remainder
+            if warmup > 0 && r.chance(1, 10) {
+                let j = r.below(warmup as u64) as usize; let p0 = params[0] as u32;
+                match r.below(5) {
+                    0 => quot[j] = 1,
+                    1 => quot[j] = if p0 == 0 { 1 << 31 } else { 1u32 << (32 - p0) },
+                    2 => quot[j] = if p0 == 0 { 3 << 30 } else { (1 + r.below(3) as u32) << (32 - p0).min(30) },
+                    3 => rem[j] = 1,
+                    _ => { if p0 > 0 { quot[j] = (((1u64 << 32) - (1u64 << p0)) >> p0) as u32; rem[j] = 1u32 << p0; } else { quot[j] = u32::MAX; rem[j] = 1; } }
+                }
+            }
             writeln!(out, "CNT c{} R {} {} {} {} {} {}", i, order, block, warmup, list(&params), list(&quot), list(&rem)).unwrap();
         } else {
             let block = match r.below(6) { 0 => *r.pick(&[192usize, 576, 1152, 2304, 4608, 256, 512, 1024, 2048, 4096, 8192, 16384]),
@@ -106,15 +118,18 @@ pub fn run(id: &str, rest: &str) -> String {
             match crate::s_enc::encode(&c) {
                 Err(e) => format!("{} {}", id, e),
                 Ok(s) => {
+                    let mut lens: Vec<u64> = vec![]; let mut bad: Option<(usize, usize, u64)> = None;
                     for k in 0..s.frame_count() {
                         let f = s.frame(k).unwrap();
                         let mut cs = CountSink(0);
                         if f.write(&mut cs).is_err() { return format!("{} write-err", id); }
-                        if f.count_bits() as u64 != cs.0 { return format!("{} ok frame={} count={} written={}", id, k, f.count_bits(), cs.0); }
+                        if f.count_bits() as u64 != cs.0 && bad.is_none() { bad = Some((k, f.count_bits(), cs.0)); }
+                        lens.push(cs.0 / 8);
                     }
+                    if let Some((k, c, w)) = bad { return format!("{} ok frame={} count={} written={} lens={}", id, k, c, w, list(&lens)); }
                     let mut cs = CountSink(0);
                     if s.write(&mut cs).is_err() { return format!("{} write-err", id); }
-                    format!("{} ok count={} written={}", id, s.count_bits(), cs.0)
+                    format!("{} ok count={} written={} lens={}", id, s.count_bits(), cs.0, list(&lens))
                 }
             }
         }
